@@ -39,24 +39,48 @@ var apiOps = []apiOp{
 	}},
 	{"GetTime", 0x32, func(u uhppote.IUHPPOTE, s uint32) ([]any, error) { v, err := u.GetTime(s); return res(err, v) }},
 	{"OpenDoor", 0x40, func(u uhppote.IUHPPOTE, s uint32) ([]any, error) { v, err := u.OpenDoor(s, 3); return res(err, v) }},
-	{"PutCard", 0x50, func(u uhppote.IUHPPOTE, s uint32) ([]any, error) { v, err := u.PutCard(s, sampleCard); return res(err, v) }},
-	{"DeleteCard", 0x52, func(u uhppote.IUHPPOTE, s uint32) ([]any, error) { v, err := u.DeleteCard(s, 8165535); return res(err, v) }},
+	{"PutCard", 0x50, func(u uhppote.IUHPPOTE, s uint32) ([]any, error) {
+		v, err := u.PutCard(s, sampleCard)
+		return res(err, v)
+	}},
+	{"DeleteCard", 0x52, func(u uhppote.IUHPPOTE, s uint32) ([]any, error) {
+		v, err := u.DeleteCard(s, 8165535)
+		return res(err, v)
+	}},
 	{"DeleteCards", 0x54, func(u uhppote.IUHPPOTE, s uint32) ([]any, error) { v, err := u.DeleteCards(s); return res(err, v) }},
 	{"GetCards", 0x58, func(u uhppote.IUHPPOTE, s uint32) ([]any, error) { v, err := u.GetCards(s); return res(err, v) }},
-	{"GetCardByID", 0x5a, func(u uhppote.IUHPPOTE, s uint32) ([]any, error) { v, err := u.GetCardByID(s, 8165535); return res(err, v) }},
-	{"GetCardByIndex", 0x5c, func(u uhppote.IUHPPOTE, s uint32) ([]any, error) { v, err := u.GetCardByIndex(s, 17); return res(err, v) }},
+	{"GetCardByID", 0x5a, func(u uhppote.IUHPPOTE, s uint32) ([]any, error) {
+		v, err := u.GetCardByID(s, 8165535)
+		return res(err, v)
+	}},
+	{"GetCardByIndex", 0x5c, func(u uhppote.IUHPPOTE, s uint32) ([]any, error) {
+		v, err := u.GetCardByIndex(s, 17)
+		return res(err, v)
+	}},
 	{"SetDoorControlState", 0x80, func(u uhppote.IUHPPOTE, s uint32) ([]any, error) {
 		v, err := u.SetDoorControlState(s, 2, types.Controlled, 7)
 		return res(err, v)
 	}},
-	{"GetDoorControlState", 0x82, func(u uhppote.IUHPPOTE, s uint32) ([]any, error) { v, err := u.GetDoorControlState(s, 2); return res(err, v) }},
-	{"SetTimeProfile", 0x88, func(u uhppote.IUHPPOTE, s uint32) ([]any, error) { v, err := u.SetTimeProfile(s, sampleProfile); return res(err, v) }},
-	{"ClearTimeProfiles", 0x8a, func(u uhppote.IUHPPOTE, s uint32) ([]any, error) { v, err := u.ClearTimeProfiles(s); return res(err, v) }},
+	{"GetDoorControlState", 0x82, func(u uhppote.IUHPPOTE, s uint32) ([]any, error) {
+		v, err := u.GetDoorControlState(s, 2)
+		return res(err, v)
+	}},
+	{"SetTimeProfile", 0x88, func(u uhppote.IUHPPOTE, s uint32) ([]any, error) {
+		v, err := u.SetTimeProfile(s, sampleProfile)
+		return res(err, v)
+	}},
+	{"ClearTimeProfiles", 0x8a, func(u uhppote.IUHPPOTE, s uint32) ([]any, error) {
+		v, err := u.ClearTimeProfiles(s)
+		return res(err, v)
+	}},
 	{"SetDoorPasscodes", 0x8c, func(u uhppote.IUHPPOTE, s uint32) ([]any, error) {
 		v, err := u.SetDoorPasscodes(s, 3, 12345, 0, 999999, 1)
 		return res(err, v)
 	}},
-	{"RecordSpecialEvents", 0x8e, func(u uhppote.IUHPPOTE, s uint32) ([]any, error) { v, err := u.RecordSpecialEvents(s, true); return res(err, v) }},
+	{"RecordSpecialEvents", 0x8e, func(u uhppote.IUHPPOTE, s uint32) ([]any, error) {
+		v, err := u.RecordSpecialEvents(s, true)
+		return res(err, v)
+	}},
 	{"SetListener", 0x90, func(u uhppote.IUHPPOTE, s uint32) ([]any, error) {
 		v, err := u.SetListener(s, netip.MustParseAddrPort("192.168.1.100:60001"), 15)
 		return res(err, v)
@@ -66,20 +90,38 @@ var apiOps = []apiOp{
 		return res(err, a, i)
 	}},
 	{"GetDevice", 0x94, func(u uhppote.IUHPPOTE, s uint32) ([]any, error) { v, err := u.GetDevice(s); return res(err, v) }},
-	{"GetTimeProfile", 0x98, func(u uhppote.IUHPPOTE, s uint32) ([]any, error) { v, err := u.GetTimeProfile(s, 29); return res(err, v) }},
-	{"SetPCControl", 0xa0, func(u uhppote.IUHPPOTE, s uint32) ([]any, error) { v, err := u.SetPCControl(s, true); return res(err, v) }},
-	{"SetInterlock", 0xa2, func(u uhppote.IUHPPOTE, s uint32) ([]any, error) { v, err := u.SetInterlock(s, types.Interlock12_34); return res(err, v) }},
+	{"GetTimeProfile", 0x98, func(u uhppote.IUHPPOTE, s uint32) ([]any, error) {
+		v, err := u.GetTimeProfile(s, 29)
+		return res(err, v)
+	}},
+	{"SetPCControl", 0xa0, func(u uhppote.IUHPPOTE, s uint32) ([]any, error) {
+		v, err := u.SetPCControl(s, true)
+		return res(err, v)
+	}},
+	{"SetInterlock", 0xa2, func(u uhppote.IUHPPOTE, s uint32) ([]any, error) {
+		v, err := u.SetInterlock(s, types.Interlock12_34)
+		return res(err, v)
+	}},
 	{"ActivateKeypads", 0xa4, func(u uhppote.IUHPPOTE, s uint32) ([]any, error) {
 		v, err := u.ActivateKeypads(s, map[uint8]bool{1: true, 2: false, 3: true, 4: true})
 		return res(err, v)
 	}},
 	{"ClearTaskList", 0xa6, func(u uhppote.IUHPPOTE, s uint32) ([]any, error) { v, err := u.ClearTaskList(s); return res(err, v) }},
-	{"AddTask", 0xa8, func(u uhppote.IUHPPOTE, s uint32) ([]any, error) { v, err := u.AddTask(s, sampleTask); return res(err, v) }},
+	{"AddTask", 0xa8, func(u uhppote.IUHPPOTE, s uint32) ([]any, error) {
+		v, err := u.AddTask(s, sampleTask)
+		return res(err, v)
+	}},
 	{"RefreshTaskList", 0xac, func(u uhppote.IUHPPOTE, s uint32) ([]any, error) { v, err := u.RefreshTaskList(s); return res(err, v) }},
 	{"GetEvent", 0xb0, func(u uhppote.IUHPPOTE, s uint32) ([]any, error) { v, err := u.GetEvent(s, 78); return res(err, v) }},
-	{"SetEventIndex", 0xb2, func(u uhppote.IUHPPOTE, s uint32) ([]any, error) { v, err := u.SetEventIndex(s, 78); return res(err, v) }},
+	{"SetEventIndex", 0xb2, func(u uhppote.IUHPPOTE, s uint32) ([]any, error) {
+		v, err := u.SetEventIndex(s, 78)
+		return res(err, v)
+	}},
 	{"GetEventIndex", 0xb4, func(u uhppote.IUHPPOTE, s uint32) ([]any, error) { v, err := u.GetEventIndex(s); return res(err, v) }},
-	{"RestoreDefaultParameters", 0xc8, func(u uhppote.IUHPPOTE, s uint32) ([]any, error) { v, err := u.RestoreDefaultParameters(s); return res(err, v) }},
+	{"RestoreDefaultParameters", 0xc8, func(u uhppote.IUHPPOTE, s uint32) ([]any, error) {
+		v, err := u.RestoreDefaultParameters(s)
+		return res(err, v)
+	}},
 }
 
 func findOp(name string) *apiOp {
@@ -96,8 +138,8 @@ func findOp(name string) *apiOp {
 var paths = []string{"BroadcastTo", "SendUDP", "SendTCP"}
 
 type client struct {
-	u      uhppote.IUHPPOTE
-	f      *drv.Fake
+	u       uhppote.IUHPPOTE
+	f       *drv.Fake
 	answer  [][]byte // what the network answers with to the next request
 	path    string
 	serials []uint32 // configured controllers
